@@ -17,6 +17,7 @@ pub mod c12;
 pub mod c13;
 pub mod c14;
 pub mod c15;
+pub mod c16;
 pub mod c17;
 pub mod c18;
 pub mod c19;
@@ -39,6 +40,7 @@ pub fn run(ctx: &Ctx, sh: &mut Shard) {
         "C13" => c13::run(ctx, sh),
         "C14" => c14::run(ctx, sh),
         "C15" => c15::run(ctx, sh),
+        "C16" => c16::run(ctx, sh),
         "C17" => c17::run(ctx, sh),
         "C18" => c18::run(ctx, sh),
         "C19" => c19::run(ctx, sh),
@@ -66,6 +68,7 @@ pub fn replay(v: &Value, sh: &mut Shard) {
         "C13" => c13::replay(v, sh),
         "C14" => c14::replay(v, sh),
         "C15" => c15::replay(v, sh),
+        "C16" => c16::replay(v, sh),
         "C17" => c17::replay(v, sh),
         "C18" => c18::replay(v, sh),
         "C19" => c19::replay(v, sh),
